@@ -339,8 +339,10 @@ func opKDF(w *World, s *Step) (string, string) {
 		// the same key object is keyed again (re-derivation with new nonces): it must then hold exactly the new keys
 		res := &callResult{}
 		guard(res, func() { res.Err = b.GenerateKeyForIKESA(clone(s.Nonce2), clone(s.Secret), s.SpiR, s.SpiI) })
-		if res.class() != "ok" {
-			w.violate("rederivation_failed", su.String(), "a second GenerateKeyForIKESA on the same key object failed: %s %v %s", res.class(), res.Err, res.Panic)
+		if res.class() == "panic" {
+			w.violate("rederivation_panic", panicKey(res), "a second GenerateKeyForIKESA on the same key object panicked: %s", res.Panic)
+		} else if res.class() == "err" {
+			w.stats.inc("c07_rederivation_refused") // refusing to re-key an object is not against the statement
 		} else {
 			want2 := ref.DeriveIKE(su.refPrf(), su.refInteg(), su.Encr, s.Nonce2, s.Secret, s.SpiR, s.SpiI)
 			before := len(w.viol)
